@@ -34,6 +34,8 @@ SKEWS = [0, 0, 0, 64, 1000, 20000]
 OBJECT_CONFIGS = [
     # (weight, kind, params): each names one long-lived object (or API entry) that successive operations share
     (4, "optimize", {"api": "fold_pass"}),
+    (2, "optimize", {"api": "fold_pass_cb", "answer": "veto_add"}),
+    (1, "optimize", {"api": "fold_pass_cb", "answer": "veto_mul"}),
     (2, "optimize", {"api": "fold_pass", "opts": {"onnx_shape_inference": False}}),
     (1, "optimize", {"api": "fold_pass", "opts": {"input_size_limit": 8}}),
     (3, "optimize", {"api": "proto"}),
@@ -87,6 +89,9 @@ FAMILY_AFFINITY = {
     "gen:bn_gemm": "group:fuse_pad_into_conv_rule,normalize_pad_format_conv_rule,fuse_batchnorm_into_conv_rule,fuse_batchnorm_into_gemm_rule",
     "gen:reshape_reshape": "group:reshape_reshape_rule,flatten_to_reshape_rule,cast_cast_rule,transpose_transpose_rule,unsqueeze_unsqueeze_rule",
 }
+
+
+FAMILY_AFFINITY_2 = {"gen:rms_norm": "ort:rms_normalization,softmax", "gen:fold_chain": None}
 
 
 def object_key(op: dict) -> str:
@@ -195,7 +200,7 @@ def gen_targets(seed: int, tier: dict, pools) -> list[dict]:
         else:
             m = pools.model_ref(r, family=r.choice(fams) if r.chance(0.6) else None)
         fam = m.pop("family", None) or m.get("path", "")
-        k = r.randint(2, 4) if fam.startswith("gen:") else r.randint(3, 5)
+        k = r.randint(3, 4) if fam in ("gen:rms_norm", "gen:fold_chain") else r.randint(2, 4) if fam.startswith("gen:") else r.randint(3, 5)
         if fam.startswith("gen:") and r.chance(0.35):
             # version conversion through a long-lived pass, to a target that is (or is not) the model's own version
             add(with_id({"kind": "convert", "model": m, "family": fam, "target": r.choice([18, 20, 23]), "fallback": False, "api": "pass"}))
@@ -205,6 +210,10 @@ def gen_targets(seed: int, tier: dict, pools) -> list[dict]:
                 # the rule tests' own recipe: optimize, then apply the fusion rule set named by the test file
                 mod = os.path.basename(fam).replace("_extended_test.py", "").replace("_test.py", "")
                 kind, params = "rewrite", {"rules": "fusion:" + mod, "api": "apply", "pre_optimize": True}
+            elif j == 1 and FAMILY_AFFINITY_2.get(fam):
+                kind, params = "rewrite", {"rules": FAMILY_AFFINITY_2[fam], "api": "apply"}
+            elif j == 1 and fam == "gen:fold_chain":
+                kind, params = "optimize", {"api": "fold_pass_cb", "answer": "veto_add"}
             elif j == 0 and fam in FAMILY_AFFINITY:
                 # make sure the family meets the rule set that stashes its parameters
                 # through the *long-lived* RewriteRuleSet object (api "apply"), so that the family shares one object
@@ -222,6 +231,12 @@ def _rule_bearing(op: dict) -> bool:
     if op["kind"] == "rewrite":
         return True
     return op["kind"] == "optimize" and op.get("api") not in ("remove_unused", "inline")
+
+
+def _family_objects(pool: list[dict]) -> list[str]:
+    """Object configurations through which at least three members of the family go."""
+    cnt = collections.Counter(object_key(t) for t in pool)
+    return sorted(k for k, n in cnt.items() if n >= 3)
 
 
 def _pair_run(rng: Rng, pool: list[dict], failing: set, length: int, changing: set | None = None) -> list[dict]:
@@ -279,7 +294,7 @@ def gen_runs(seed: int, tier: dict, targets: list[dict], repo: str, failing: set
     if "gen:external" in gfams:
         gfams += ["gen:external"] * 2   # three turns in the rotation: its template needs both halves to be relevant
     custom_scripts = [t for t in by_kind["translate"] if "CUSTOM = Opset(" in t.get("src", "")]
-    stateful = [k for k in objs if any(a in k for a in ('"fold_pass"', '"pass"', '"apply"'))]
+    stateful = [k for k in objs if any(a in k for a in ('"fold_pass"', '"fold_pass_cb"', '"pass"', '"apply"'))]
     for r in range(tier["runs"]):
         rng = Rng(seed).sub("run", r)
         env = {
@@ -315,6 +330,17 @@ def gen_runs(seed: int, tier: dict, targets: list[dict], repo: str, failing: set
                 k = max(1, min(4, length // 2))
                 ops = [copy.deepcopy(t) for t in rng.sample(missing, min(k, len(missing)))]
                 ops += [copy.deepcopy(t) for t in rng.sample(present, min(max(1, length - len(ops)), len(present), 5))]
+            elif len(pool) >= 2 and (r // 5) % 2 == 1 and _family_objects(pool):
+                # every member of the family through ONE long-lived object, one after the other (state keyed by the value
+                # names the members share); a third of them with an injected failure
+                template, env["template"] = "family_on_object", "family_on_object"
+                ob = rng.choice(_family_objects(pool))
+                members = [t for t in pool if object_key(t) == ob]
+                rng.shuffle(members)
+                ops = [copy.deepcopy(t) for t in members[:9]]
+                for op in ops[:-1]:
+                    if rng.chance(0.3):
+                        op["fault"] = {"frac": rng.below(10**6) / 10**6}
             elif len(pool) >= 2:
                 template, env["template"] = "pairs_family", "pairs_family"
                 ops = _pair_run(rng, pool, failing, length, changing)
